@@ -232,3 +232,14 @@ func selfTestTables() error {
 	}
 	return nil
 }
+
+// Exported wrappers used by props/c07.
+
+// TLV encodes tag || minimal definite length || content.
+func TLV(tag byte, content []byte) []byte { return tlv(tag, content) }
+
+// IntContent is the minimal two's complement INTEGER content of v.
+func IntContent(v *big.Int) []byte { return intContent(v) }
+
+// Guarded runs fn and returns the panic value and innermost gmsm frame, if it panicked.
+func Guarded(fn func()) (any, string) { return guarded(fn) }
